@@ -21,8 +21,31 @@ type flInst struct {
 
 func (in *flInst) Close() { in.releaseAll() }
 
-// writeOver issues the overlay entries as Put / Delete on the flushable store
-func (in *flInst) writeOver(over [][2]string) error {
+// writeOver issues the overlay entries as Put / Delete on the flushable store, or (viaBatch) through the
+// store's long-lived batch object: queue, Write, Reset
+func (in *flInst) writeOver(over [][2]string, useBatch bool) error {
+	if useBatch && len(over) > 0 {
+		in.ensureBatch()
+		for _, p := range over {
+			var err error
+			kb, vb := spare(decKey(p[0])), spare(decVal(p[1]))
+			if p[1] == "x" {
+				err = in.batch.Delete(kb)
+			} else {
+				err = in.batch.Put(kb, vb)
+			}
+			scribble(kb)
+			scribble(vb)
+			if err != nil {
+				return err
+			}
+		}
+		if err := in.batch.Write(); err != nil {
+			return err
+		}
+		in.batch.Reset()
+		return nil
+	}
 	for _, p := range over {
 		var err error
 		kb, vb := spare(decKey(p[0])), spare(decVal(p[1]))
@@ -54,8 +77,10 @@ func (in *flInst) build(state map[string]interface{}) error {
 		}
 	}
 	bw, _ := state["bw"].(bool)
-	if bw {
-		// a written batch: queue and write it first, then discard what it wrote
+	// a written batch whose keys are still unflushed with its values is written last (the natural history);
+	// otherwise it is written first and what it wrote discarded
+	late := bw && opsConsistent(list(state["batch"]), pairs(state["over"]), "x")
+	if bw && !late {
 		if err := in.buildBatch(list(state["batch"])); err != nil {
 			return err
 		}
@@ -87,11 +112,18 @@ func (in *flInst) build(state map[string]interface{}) error {
 	if err := setContent(in.under, under); err != nil {
 		return err
 	}
-	if err := in.writeOver(pairs(state["over"])); err != nil {
+	if err := in.writeOver(pairs(state["over"]), in.viaBatch && !(bw && !late)); err != nil {
 		return err
 	}
-	if !bw {
-		return in.buildBatch(list(state["batch"]))
+	if bw && !late {
+		return nil
+	}
+	if err := in.buildBatch(list(state["batch"])); err != nil {
+		return err
+	}
+	if late {
+		in.ensureBatch()
+		return in.batch.Write()
 	}
 	return nil
 }
@@ -139,12 +171,14 @@ func (in *flInst) Project() interface{} {
 func FlushableAdapter(env *Env, kind, backend string) replay.Adapter {
 	name := kind + ":" + backend
 	raw := env.newRaw(backend, name)
+	n := 0
 	return replay.Adapter{Name: name, New: func(pre interface{}) (replay.Inst, error) {
 		db, err := raw.get()
 		if err != nil {
 			return nil, err
 		}
-		in := &flInst{core: core{env: env, tick: func() {}}, under: db}
+		n++
+		in := &flInst{core: core{env: env, tick: func() {}, viaBatch: n%2 == 0}, under: db}
 		switch kind {
 		case "fl":
 			in.fl = flushable.Wrap(db)
